@@ -1114,7 +1114,7 @@ ASSUMPTIONS = ['fresh new name: not a column of the table / table of the documen
                "table's group column since b90267a, and the search checks that the rejection leaves no trace)",
                'builtins do not inspect table names (proved for the standard ones; str(record) shows the table id and is '
                'keyed through the rename by the oracle)']
-TECHNIQUE = ('Coq proof of equivariance of an executable formula semantics under injective renamings + text-level model '
+TECHNIQUE = ('Deciding rename code regenerated from source on every run (harness/c16v.py -> coq/gen/Renames_gen.v) with bridging proofs + AST pins; Coq proof of equivariance of an executable formula semantics under injective renamings + text-level model '
              'of textbuilder.Replacer proved to touch only the reported name spans; differential cases (Replacer, '
              '_prepare_formula_renames, tree-level rename vs the formulas the engine writes) + monitored oracle hypothesis '
              '+ engine-level search over every rename path')
